@@ -645,6 +645,7 @@ def gen_listing() -> typing.Tuple[bool, str]:
             ('k_fix_nonj2', 'true' if tpl_variant == 'fix' else 'false'),
             ('k_fix_suptpl', 'true' if sup_variant == 'fix' else 'false'),
             ('k_path_pure', 'true' if path_effects() == [] else 'false'),
+            ('k_ns_check', ns_check_flag()),
         ]
         data = lang_data()
         parts = ['Definition the_code : code := {|\n%s |}.' % ';\n'.join('  %s := %s' % f for f in fields)]
@@ -788,6 +789,7 @@ def path_effects() -> typing.List[str]:
 #   VERIF_REPO=<tree> python -m tools.translators.gen_c08 --update-pins
 # ---------------------------------------------------------------------------------------------
 JL, JI, RU = 'src/nunavut/jinja/loaders.py', 'src/nunavut/jinja/__init__.py', 'src/nunavut/cli/runners.py'
+NS = 'src/nunavut/_namespace.py'
 PIN_COMMON = [
     (JL, 'DSDLTemplateLoader.__init__'), (JL, 'DSDLTemplateLoader.get_source'), (JL, 'DSDLTemplateLoader._filter_template_list_by_suffix'),
     (JI, 'CodeGenerator.get_templates'), (JI, 'SupportGenerator.get_templates'), (JI, 'CodeGenerator._generate_code'),
@@ -799,7 +801,11 @@ PIN_VARIANTS = {
     'supenum': {'orig': [(JI, 'SupportGenerator._get_templates_by_support_type')],
                 'fix': [(JI, 'SupportGenerator._get_templates_by_support_type'), (JI, 'SupportGenerator._rendered_template')]},
     'depsrc': {'fix': [(RU, 'ArgparseRunner._dependency_source_files')]},
+    # optional functions: when the tree has them they must have the pinned shape
+    'nscheck': {'fix': [(NS, '_NamespaceFactory.check_namespace_files_are_not_type_files')]},
+    'typetpl': {'fix': [(JL, 'DSDLTemplateLoader._type_templates'), (JL, 'DSDLTemplateLoader.type_to_template')]},
 }
+OPTIONAL_PARTS = ('nscheck', 'typetpl')
 PIN_FILE = os.path.join(os.path.dirname(os.path.abspath(__file__)), 'pins', 'c08_enum.json')
 
 
@@ -826,6 +832,29 @@ def variant_of(part: str) -> typing.Optional[str]:
     return None
 
 
+def _optional_part_state(part: str) -> str:
+    """'absent' (the tree does not have the function), 'fix' (pinned shape) or 'other'"""
+    first = PIN_VARIANTS[part]['fix'][0]
+    if _dump([first]) is None:
+        return 'absent'
+    return 'fix' if variant_of(part) == 'fix' else 'other'
+
+
+def ns_check_flag() -> str:
+    """'true' iff build_namespace_tree ends by calling the (pinned) namespace-file/type-file clash check on its factory"""
+    st = _optional_part_state('nscheck')
+    fn = find_function(gen.parse_repo(NS), None, 'build_namespace_tree')
+    calls = [c for c in ast.walk(fn) if isinstance(c, ast.Call) and _u(c.func).endswith('.check_namespace_files_are_not_type_files')]
+    if st == 'absent' and not calls:
+        return 'false'
+    if st != 'fix' or len(calls) != 1 or _u(calls[0]) != 'nsf.check_namespace_files_are_not_type_files()':
+        raise Unsupported('namespace file / type file clash check: unknown shape or call')
+    body = _strip_doc(fn.body)
+    if not (isinstance(body[-1], ast.Return) and isinstance(body[-2], ast.Expr) and body[-2].value is calls[0]):
+        raise Unsupported('the clash check is no longer the last statement of build_namespace_tree before its return')
+    return 'true'
+
+
 def pin_c08_enum() -> typing.Tuple[bool, str]:
     out = os.path.join(gen.GEN_DIR, 'Gen_Pin_c08_enum.v')
     head = gen.HEADER % 'the enumeration functions listed in tools/translators/gen_c08.py (PIN_COMMON, PIN_VARIANTS)'
@@ -837,6 +866,9 @@ def pin_c08_enum() -> typing.Tuple[bool, str]:
             for part in ('tplenum', 'supenum'):
                 if variant_of(part) is None:
                     why = '%s has none of the pinned shapes' % PIN_VARIANTS[part]['orig'][0][1]
+            for part in OPTIONAL_PARTS:
+                if _optional_part_state(part) == 'other':
+                    why = '%s does not have the pinned shape' % PIN_VARIANTS[part]['fix'][0][1]
     except (OSError, ValueError) as ex:
         why = 'pin file unreadable: %r' % (ex,)
     if why:
